@@ -141,7 +141,7 @@ func checkCmd(args []string) int {
 			if r.vc.ExpectSat {
 				continue
 			}
-			if r.res.Status == "unsat" {
+			if r.res.Status == "unsat" && !condForBaseline(results, r) {
 				lines = append(lines, r.vc.Name+"\t"+r.vc.Kind)
 			}
 		}
@@ -176,9 +176,45 @@ func checkCmd(args []string) int {
 		seen                                 = map[string]bool{}
 		canaries                             int
 	)
+	// premises that are themselves not discharged taint their users (fixpoint)
+	badFn := map[string]bool{}
+	isPremiseKind := func(k string) bool {
+		return k == "post" || strings.HasPrefix(k, "law.") || k == "bounded.law" || k == "lemma" || k == "unsupported"
+	}
+	conditional := map[string]string{}
+	for changed := true; changed; {
+		changed = false
+		for _, r := range results {
+			if r.vc.ExpectSat || !isPremiseKind(r.vc.Kind) {
+				continue
+			}
+			if (r.res.Status != "unsat" || conditional[r.vc.Name] != "") && !badFn[r.vc.Fn] {
+				badFn[r.vc.Fn] = true
+				changed = true
+			}
+		}
+		for _, r := range results {
+			if r.vc.ExpectSat || r.res.Status != "unsat" || conditional[r.vc.Name] != "" {
+				continue
+			}
+			for _, c := range r.vc.Callees {
+				if badFn[c] && c != r.vc.Fn {
+					conditional[r.vc.Name] = c
+					changed = true
+					break
+				}
+			}
+		}
+	}
+	var conditionalList []string
 	exit := 0
 	for _, r := range results {
 		name := r.vc.Name
+		if c := conditional[name]; c != "" {
+			// proved only relative to a callee contract that is not discharged in this check: not counted
+			conditionalList = append(conditionalList, name+" (premise: "+c+")")
+			r.res.Status = "conditional"
+		}
 		seen[name] = true
 		for _, a := range r.vc.Assumed {
 			assumed[a] = true
@@ -301,6 +337,7 @@ func checkCmd(args []string) int {
 		"cache_hits":               nCache,
 		"known_findings":           knownPrinted,
 		"undecided_not_claimed":    undecided,
+		"conditional_on_undischarged_premise": conditionalList,
 		"unsupported":              unsupported,
 		"vacuity_canaries":         canaries,
 		"vacuous":                  vacuous,
@@ -324,6 +361,40 @@ func checkCmd(args []string) int {
 		}
 	}
 	return exit
+}
+
+// condForBaseline: an obligation whose premises are not all discharged is not recorded as claimed.
+func condForBaseline(results []vcResult, r vcResult) bool {
+	badFn := map[string]bool{}
+	cond := map[string]bool{}
+	isPremiseKind := func(k string) bool {
+		return k == "post" || strings.HasPrefix(k, "law.") || k == "bounded.law" || k == "lemma" || k == "unsupported"
+	}
+	for changed := true; changed; {
+		changed = false
+		for _, x := range results {
+			if x.vc.ExpectSat || !isPremiseKind(x.vc.Kind) {
+				continue
+			}
+			if (x.res.Status != "unsat" || cond[x.vc.Name]) && !badFn[x.vc.Fn] {
+				badFn[x.vc.Fn] = true
+				changed = true
+			}
+		}
+		for _, x := range results {
+			if x.vc.ExpectSat || x.res.Status != "unsat" || cond[x.vc.Name] {
+				continue
+			}
+			for _, c := range x.vc.Callees {
+				if badFn[c] && c != x.vc.Fn {
+					cond[x.vc.Name] = true
+					changed = true
+					break
+				}
+			}
+		}
+	}
+	return cond[r.vc.Name]
 }
 
 type replayResult struct {
